@@ -104,3 +104,4 @@ void h_push0_set_send_buf_len(void) { const void *buf; size_t sz; nni_type t; VP
 void h_lmq_resize(void) { nni_lmq *lmq; size_t cap; VP_HAVOC_GHOSTS(); (void) nni_lmq_resize(lmq, cap); VP_CANARY(); }
 /* keeps the body-less second contract's symbol in the binary (never called) */
 void vp_push_refs(void) { (void) vp_push_lmq_resize(NULL, 0); }
+void h_push0_sock_init(void) { void *arg; nni_sock *sock; VP_HAVOC_GHOSTS(); push0_sock_init(arg, sock); VP_CANARY(); }
